@@ -262,7 +262,7 @@ impl CelsData<RawPixels> {
                     frame: frame as u16,
                     layer: layer as u16,
                 };
-                is_linkable_cel.push(self.cel(cel_id).map_or(false, |c| c.content.is_raw()));
+                is_linkable_cel.push(self.cel(cel_id).map_or(false, |c| !c.content.is_linked()));
             }
         }
         let validate_ref = |id: CelId| {
@@ -379,8 +379,8 @@ pub(crate) enum CelContent<P> {
 }
 
 impl<P> CelContent<P> {
-    fn is_raw(&self) -> bool {
-        matches!(self, CelContent::Raw(_))
+    fn is_linked(&self) -> bool {
+        matches!(self, CelContent::Linked(_))
     }
 }
 
